@@ -933,6 +933,31 @@ impl<'s> Tokenizer<'s> {
     }
 }
 
+/// The widest field a format spec may ask for (padding is allocated eagerly).
+const MAX_WIDTH: usize = crate::value::ops::MAX_REPEATED_STRING_LEN;
+
+/// The largest supported precision.  `std::fmt` accepts at most `u16::MAX` and the
+/// general (`g`) conversion asks for up to three more digits than the precision.
+const MAX_PRECISION: usize = u16::MAX as usize - 4;
+
+/// Parses a width or precision and enforces its limit.
+fn parse_limited_number(
+    cursor: &mut Cursor,
+    limit: usize,
+    what: &str,
+) -> Result<Option<usize>, Error> {
+    match ok!(parse_number(cursor)) {
+        Some(num) if num > limit => Err(Error::new(
+            ErrorKind::InvalidOperation,
+            format!(
+                "{what} in the format string at offset {} is too large",
+                cursor.position()
+            ),
+        )),
+        rv => Ok(rv),
+    }
+}
+
 fn parse_number(cursor: &mut Cursor) -> Result<Option<usize>, Error> {
     let digit_count = cursor
         .rest_bytes()
@@ -1101,7 +1126,7 @@ mod printf_style {
             zero_padded = false;
         }
 
-        let mut width = ok!(parse_number(cursor));
+        let mut width = ok!(parse_limited_number(cursor, MAX_WIDTH, "width"));
         if zero_padded && width.is_none() {
             // if '0' is not followed by width (i.e. digit+), then it should be parsed as
             // a width, not as zero-padding.
@@ -1111,7 +1136,7 @@ mod printf_style {
 
         let precision = cursor
             .advance_if(b'.')
-            .then(|| parse_number(cursor))
+            .then(|| parse_limited_number(cursor, MAX_PRECISION, "precision"))
             .transpose()?
             .flatten();
 
@@ -1363,7 +1388,7 @@ mod str_format_style {
         let alternate_form = cursor.advance_if(b'#');
         let mut zero_padded = cursor.advance_if(b'0');
 
-        let mut width = ok!(parse_number(cursor));
+        let mut width = ok!(parse_limited_number(cursor, MAX_WIDTH, "width"));
         if zero_padded && width.is_none() {
             // if '0' is not followed by width (i.e. digit+), then it should be parsed as
             // a width, not as zero-padding.
@@ -1381,7 +1406,7 @@ mod str_format_style {
 
         let precision = cursor
             .advance_if(b'.')
-            .then(|| parse_number(cursor))
+            .then(|| parse_limited_number(cursor, MAX_PRECISION, "precision"))
             .transpose()?
             .flatten();
 
